@@ -306,9 +306,9 @@ section shallow
 
 /-- A shallow clone of depth 1: commit 1 (tree 3, parent 2) is a graft point, its parent 2 (tree 4) is not
 there.  Deepening / unshallowing must install the pack holding 2 and 4 first and only then rewrite
-`shallow`.  This is the order as coded now on every path: `GitClient.fetch` (smart transports: `commit()`
-of the pack, then `update_shallow`) and — since /repo PENDING-1 — `Repo.fetch` / `LocalGitClient` (the graph
-walker's `update_shallow` is applied after `add_pack_data`); all recorded deepen / unshallow programs in
+`shallow`.  This is the order as coded on every path: `GitClient.fetch` (smart transports) and `Repo.fetch` /
+`LocalGitClient` both drop commits from `shallow` only after the pack is stored (3798ec6); NEW graft points,
+on the other hand, are written BEFORE the pack (§7 below); all recorded deepen / unshallow programs in
 Gen/Traces.lean have this shape and are accepted. -/
 def specUnshallow : Spec :=
   { edges := [(1, [3], [2]), (2, [4], []), (3, [], []), (4, [], [])],
@@ -447,5 +447,82 @@ theorem lock_as_presence_counterexample :
   · simp [run, step, upd, toFS, lk, specStaleLock, progLockAsPresence] at hp
 
 end retry
+
+/-! ## 7. New graft points BEFORE the pack: a retried depth fetch must not lose them -/
+
+section depthretry
+
+/-- An initial fetch at depth 1: commit 1 (tree 3) arrives, its parent 2 does not; `shallow` must list 1. -/
+def specDepthInit : Spec :=
+  { edges := [(1, [3], [2]), (3, [], [])],
+    known := [(.ref 1, none), (.shallow, none), (.packedRefs, none), (.pack 1, none), (.idx 1, none),
+              (.tmp 1, none), (.tmp 2, none), (.tmp 3, none), (.tmp 4, none)],
+    newRefs := [(1, some (.sha 1))], newPlain := [], garbage := [] }
+
+/-- The order as coded now (`GitClient.fetch`, `Repo.fetch`): `shallow` with the new graft point, the pack, its
+index, `shallow` again (commits to drop: none here), and finally — the caller — the ref. -/
+def progDepthNow : List Call :=
+  [.write (.tmp 3) (.shallowSet [1]), .rename (.tmp 3) .shallow,
+   .write (.tmp 1) (.packData 1), .rename (.tmp 1) (.pack 1),
+   .write (.tmp 2) (.idxData 1 [1, 3]), .rename (.tmp 2) (.idx 1),
+   .write (.tmp 3) (.shallowSet [1]), .rename (.tmp 3) .shallow,
+   .write (.tmp 4) (.refSha 1), .rename (.tmp 4) (.ref 1)]
+
+/-- What the re-run does from each crash prefix: everything again while the tip is not in the store; nothing
+when a stale lock is in the way; and once pack and index are there — nothing is wanted any more — only the
+(empty) shallow update and the ref. -/
+def retriesDepthNow : List (List Call) :=
+  [progDepthNow, [], progDepthNow, progDepthNow, progDepthNow, [],
+   [.write (.tmp 3) (.shallowSet [1]), .rename (.tmp 3) .shallow, .write (.tmp 4) (.refSha 1), .rename (.tmp 4) (.ref 1)],
+   [],
+   [.write (.tmp 3) (.shallowSet [1]), .rename (.tmp 3) .shallow, .write (.tmp 4) (.refSha 1), .rename (.tmp 4) (.ref 1)],
+   []]
+
+theorem retry_depth_fetch_safe (G GP : Nat → List Nat) (s : FS) (hpre : Pre specDepthInit G GP s)
+    (k : Nat) (hk : k < retriesDepthNow.length) (j : Nat) :
+    Recoverable specDepthInit G GP s
+      (run ((retriesDepthNow.getD k []).take j) (run (progDepthNow.take k) s)) :=
+  retry_after_crash_safe _ _ _ (by decide) (by decide) G GP s hpre k hk j
+
+example : Pre specDepthInit (graphOf specDepthInit) (parentsOf specDepthInit) (toFS specDepthInit.known) :=
+  pre_of_check _ (by decide)
+
+/-- Regression witness — the order before /repo PENDING-1: pack and index first, `shallow` afterwards.  Crash
+safe in itself … -/
+def progDepthOld : List Call :=
+  [.write (.tmp 1) (.packData 1), .rename (.tmp 1) (.pack 1),
+   .write (.tmp 2) (.idxData 1 [1, 3]), .rename (.tmp 2) (.idx 1),
+   .write (.tmp 3) (.shallowSet [1]), .rename (.tmp 3) .shallow,
+   .write (.tmp 4) (.refSha 1), .rename (.tmp 4) (.ref 1)]
+
+theorem depth_fetch_old_order_crash_safe_in_itself : checkProgram specDepthInit progDepthOld = true := by
+  decide
+
+/-- … but NOT under retry: after a crash with pack and index in place and `shallow` not yet written, the
+re-run finds the tip in the store, wants nothing, is told no graft point, writes no `shallow` — and the
+caller sets the ref. -/
+def retryDepthOld4 : List Call := [.write (.tmp 4) (.refSha 1), .rename (.tmp 4) (.ref 1)]
+
+theorem retry_depth_fetch_old_order_rejected :
+    retryOK specDepthInit progDepthOld [[], [], [], [], retryDepthOld4] = false := by decide
+
+theorem retry_depth_fetch_old_order_counterexample :
+    ∃ G GP s, Pre specDepthInit G GP s ∧
+      ¬ Recoverable specDepthInit G GP s (run (retryDepthOld4.take 2) (run (progDepthOld.take 4) s)) := by
+  refine ⟨graphOf specDepthInit, parentsOf specDepthInit, toFS specDepthInit.known,
+    pre_of_check _ (by decide), fun h => ?_⟩
+  -- the ref names commit 1, which is not a graft point, so its parent 2 is reachable — and is nowhere
+  have hv := h.consistent 2 ⟨1, 1, by decide,
+    ReachFrom.par (by decide) (by decide) (ReachFrom.refl 2)⟩
+  rcases hv with hv | ⟨p, k, objs, hp, hi, ho⟩
+  · exact absurd hv (by decide)
+  · simp [run, step, upd, toFS, lk, specDepthInit, progDepthOld, retryDepthOld4] at hi
+    split at hi
+    · simp only [Option.some.injEq, Content.idxData.injEq] at hi
+      obtain ⟨_, rfl⟩ := hi
+      simp at ho
+    · split at hi <;> simp at hi
+
+end depthretry
 
 end Dulwich.Props.C09
